@@ -306,6 +306,15 @@ def make_programs(pid, tier, rng):
                     progs += c14_programs(kind, par, name, S, rng, thorough)
                     if not big:
                         progs += alias_programs(pid, kind, par, name, S, rng)
+    if pid == "C01":
+        # a large text with geometric byte frequencies (codewords longer than the decoding table's chunk): every string
+        # that contains a rare byte is located and extracted
+        geo = G.geometric_set()
+        rare_idx = [i + 1 for i, x in enumerate(geo) if any(c >= 75 for c in x)][:120]
+        for kind in ("HTFC", "HASHHF", "PFC", "RPDAC"):
+            par = G.P(bucket=16, overhead=25)
+            progs += obj_programs(pid, kind, par, "geometric", geo, "members",
+                                  lambda h, its: G.sec_members(h, geo, rng, 10) + ["E %d %d" % (h, i) for i in rare_idx] + ["L %d %s" % (h, G.hx(geo[i - 1])) for i in rare_idx])
     if pid == "C06":
         progs += concat_programs(rng, thorough)
     if pid == "C16":
@@ -353,6 +362,16 @@ def c08_programs(kind, par, name, S, rng):
             p.lines += ["ID 2 %d" % (len(S) + 2), "CI 2", "SD 3 %d" % (len(S) + 2), "CI 3"]
         p.lines += ["S 1 2", "D 1"]
         progs.append(p)
+    # two dictionaries loaded with the same hash representation, their saves interleaved: every save of an object must
+    # write the bytes its first save wrote, whatever was saved in between
+    if kind in G.OPT and len(S) >= 2:
+        other = sorted(set(S) | {S[-1] + bytes([0x61 + k]) * (3 + k) for k in range(6)})
+        for opt in (2, 3):
+            p = G.Prog("C08|%s|%s_LK%d|%s|interleave|loaded" % (kind, pt, opt, name))
+            p.lines = [G.build_line(1, kind, par, S), G.build_line(2, kind, par, other), "S 1 1", "S 2 2",
+                       "CAT 1 1", G.load_line("LK", kind, 1, 3, opt), "CAT 2 2", G.load_line("LK", kind, 2, 4, opt),
+                       "S 4 3", "S 3 4", "S 4 5", "S 3 6", "L 3 %s" % G.hx(S[0]), "L 4 %s" % G.hx(other[-1]), "D 4", "D 3", "D 2", "D 1"]
+            progs.append(p)
     # re-save of a loaded object, then load the re-saved image and query it
     for via, opt in G.load_variants(kind)[:4]:
         p = G.Prog("C08|%s|%s_%s%d|%s|reload|loaded" % (kind, pt, via, opt, name))
